@@ -527,6 +527,31 @@ impl Read for PieceSource {
     }
 }
 
+/// Generated piece source: n bytes produced on the fly (nothing materialised)
+pub struct GenSource {
+    left: usize,
+    rng: Option<Rng>,
+}
+
+impl GenSource {
+    pub fn new(n: usize, seed: Option<u64>) -> Self {
+        GenSource { left: n, rng: seed.map(Rng::new) }
+    }
+}
+
+impl Read for GenSource {
+    fn read(&mut self, buf: &mut [u8]) -> io::Result<usize> {
+        let n = buf.len().min(self.left);
+        match self.rng.as_mut() {
+            Some(r) => r.fill(&mut buf[..n]),
+            None => buf[..n].fill(0),
+        }
+        self.left -= n;
+        log_seam(b'p', buf.len() as u64, n as u64);
+        Ok(n)
+    }
+}
+
 // ------------------------------------------------------------------ allocator
 
 pub struct SimAlloc;
